@@ -166,6 +166,19 @@ def http_on_443(rng, i=0, v6=False):
     return Flow("noise", ep, [Item(tcpcap.frame(ep, s), dir=s.dir, seg=s, tag="http443") for s in segs])
 
 
+def big_junk_on_443(rng, i=0, v6=False):
+    """non-TLS bytes on port 443 that look like one huge handshake-typed record (type 22, length 20000..65535): with -a such a 'record' is exported as it stands"""
+    ep = tcpcap.default_ep(210 + i, v6, 443)
+    n = rng.choice([19990, 20000, 30000, 65535])
+    rec = b"\x16\x03\x03" + n.to_bytes(2, "big") + bytes([rng.choice([1, 2, 11, 0x99])]) + rng.randbytes(n - 1)
+    segs, seq = [], 1
+    for off in range(0, len(rec), 60000):
+        chunk = rec[off:off + 60000]
+        segs.append(tcpcap.Seg("c", seq, 1, 0x18, chunk, off, 0))
+        seq += len(chunk)
+    return Flow("noise", ep, [Item(tcpcap.frame(ep, s_), dir=s_.dir, seg=s_, tag="junk443") for s_ in segs])
+
+
 def tls_on_other_port(conn, rng, i=0, v6=False, port=8443):
     ep = tcpcap.default_ep(210 + i, v6, port)
     segs = tcpcap.segments(conn.events, ep, tcpcap.cut_mss(1460))
